@@ -57,6 +57,32 @@ async fn verif_replay_hist_retention() {
             if store.procs().find(&opid).is_err() || task_rows(&opid).len() != oproc.tasks().len() { bad.push(format!("REPLAY-FAIL {what}: rows of the other, still running process are missing")); }
         }
     }
+    // store level: Store::remove_proc on processes of many sizes (the row count is the unusual input: paging / limits), next to the rows
+    // of another process, messages and events that must all survive
+    {
+        let engine = EngineBuilder::new().build().await.unwrap().start();
+        let rt = engine.runtime();
+        let store = rt.cache().store();
+        let mk_task = |pid: &str, i: usize| crate::store::data::Task { id: format!("{pid}:t{i}"), pid: pid.to_string(), tid: format!("t{i}"), name: format!("n{i}"), kind: "step".to_string(), prev: None, state: "completed".to_string(), data: "{}".to_string(), err: None, node_data: "{}".to_string(), hooks: "{}".to_string(), start_time: 0, end_time: 0, timestamp: i as i64 };
+        let mk_proc = |pid: &str, state: &str| crate::store::data::Proc { id: pid.to_string(), state: state.to_string(), mid: "m".to_string(), name: "n".to_string(), start_time: 0, end_time: 0, timestamp: 0, model: "{}".to_string(), env: "{}".to_string(), err: None };
+        for (n, size) in [0usize, 1, 7, 99, 100, 101, 199, 250, 1001, 2500].into_iter().enumerate() {
+            let pid = format!("rp{n}");
+            let other = format!("ro{n}");
+            store.procs().create(&mk_proc(&pid, "completed")).unwrap();
+            store.procs().create(&mk_proc(&other, "running")).unwrap();
+            for i in 0..size { store.tasks().create(&mk_task(&pid, i)).unwrap(); }
+            for i in 0..3 { store.tasks().create(&mk_task(&other, i)).unwrap(); }
+            store.messages().create(&crate::store::data::Message { id: format!("m{n}"), pid: pid.clone(), tid: "t0".to_string(), ..Default::default() }).unwrap();
+            let r = store.remove_proc(&pid);
+            let count = |p: &str| store.tasks().query(&Query::new().push(Cond::and().push(Expr::eq("pid", p.to_string()))).set_limit(100000)).unwrap().count;
+            let what = format!("Store::remove_proc of a process with {size} task rows");
+            if r.is_err() { bad.push(format!("REPLAY-FAIL {what}: refused")); }
+            if count(&pid) != 0 { bad.push(format!("REPLAY-FAIL {what}: {} task row(s) remain", count(&pid))); }
+            if store.procs().find(&pid).is_ok() { bad.push(format!("REPLAY-FAIL {what}: the process row remains")); }
+            if count(&other) != 3 || store.procs().find(&other).is_err() { bad.push(format!("REPLAY-FAIL {what}: rows of another process were deleted")); }
+            if store.messages().find(&format!("m{n}")).is_err() { bad.push(format!("REPLAY-FAIL {what}: a message record was deleted")); }
+        }
+    }
     for b in bad.iter().take(10) { println!("{b}"); }
     assert!(bad.is_empty(), "{} retention differences", bad.len());
 }
